@@ -61,6 +61,9 @@ func (bf Bitfield) Bytes() []byte {
 
 // Add adds an ID to the set.
 func (bf *Bitfield) Add(id hotstuff.ID) {
+	if id == 0 {
+		return // IDs start at 1
+	}
 	byteIdx, bitIdx := index(id)
 	if len(bf.data) <= byteIdx {
 		bf.extend(byteIdx + 1 - len(bf.data))
@@ -70,6 +73,9 @@ func (bf *Bitfield) Add(id hotstuff.ID) {
 
 // Contains returns true if the set contains the ID.
 func (bf Bitfield) Contains(id hotstuff.ID) bool {
+	if id == 0 {
+		return false // IDs start at 1
+	}
 	byteIdx, bitIdx := index(id)
 	if len(bf.data) <= byteIdx {
 		return false
